@@ -536,6 +536,11 @@ func (tm *TaskMaster) StartTask(t *Task) (*ExecutingTask, error) {
 	if len(t.DBRPs) == 0 {
 		return nil, errors.New("task does contain any dbrps")
 	}
+	if _, ok := tm.tasks[t.ID]; ok {
+		// Starting it again would replace tm.tasks[t.ID] and leave the inputs of the
+		// running task registered: it could never be stopped again.
+		return nil, fmt.Errorf("task %s is already executing", t.ID)
+	}
 	tm.diag.StartingTask(t.ID)
 	et, err := NewExecutingTask(tm, t)
 	if err != nil {
